@@ -23,8 +23,10 @@ import (
 	"testing"
 
 	"github.com/btcsuite/btcd/btcutil/v2"
+	sphinx "github.com/lightningnetwork/lightning-onion"
 	"github.com/lightningnetwork/lnd/fn/v2"
 	graphdb "github.com/lightningnetwork/lnd/graph/db"
+	"github.com/lightningnetwork/lnd/htlcswitch"
 	"github.com/lightningnetwork/lnd/graph/db/models"
 	"github.com/lightningnetwork/lnd/lnwire"
 	paymentsdb "github.com/lightningnetwork/lnd/payments/db"
@@ -43,6 +45,41 @@ type c19Chan struct {
 	a, b   int
 	capSat int64
 	p1, p2 *c19Pol // p1: policy of a (a->b), p2: policy of b (b->a)
+
+	// hint marks a route hint (additional edge a->b, not in the graph):
+	// only p1 is used, capacity is fakeHopHintCapacity.
+	hint bool
+}
+
+// c19HintEdge is an AdditionalEdge that records every payload-size query of
+// findPath: the query is made right before an entry is stored and carries the
+// amount to send over the edge and the incoming CLTV of the edge's head node.
+type c19HintEdge struct {
+	PrivateEdge
+	from, to int
+	chanID   uint64
+	log      *[]c19Stored
+}
+
+type c19Stored struct {
+	from, to int
+	chanID   uint64
+	amt      uint64
+	expiry   uint32
+}
+
+func (e *c19HintEdge) IntermediatePayloadSize(amount lnwire.MilliSatoshi,
+	expiry uint32, channelID uint64) uint64 {
+
+	*e.log = append(*e.log, c19Stored{e.from, e.to, e.chanID,
+		uint64(amount), expiry})
+
+	return e.PrivateEdge.IntermediatePayloadSize(amount, expiry, channelID)
+}
+
+type c19Relax struct {
+	from, to int
+	amt      uint64
 }
 
 type c19Case struct {
@@ -64,7 +101,8 @@ type c19Case struct {
 	ignPairs   [][2]int
 	bw         map[uint64]uint64
 	defaultCfg bool
-	probSalt   int // 0: constant probability 1; else a fixed table
+	probSalt   int // 0: constant 1; >0: a fixed table; <0: distinct per pair
+	metaLen    int // length of the payment metadata for the final hop
 }
 
 func (cs *c19Case) clone() *c19Case {
@@ -109,6 +147,9 @@ func (g *c19Graph) ForEachNodeDirectedChannel(_ context.Context,
 	}
 	for _, k := range g.cs.order {
 		ch := &g.cs.chans[k]
+		if ch.hint {
+			continue
+		}
 		var (
 			own, other *c19Pol
 			peer       int
@@ -203,6 +244,11 @@ type c19 struct {
 	n     int
 	found int
 	loose bool
+
+	// dbBias shapes the cases for the graph-DB stream: multi-hop, permissive
+	// limits and mostly non-zero inbound fees, so that the DB's mapping of
+	// policies and inbound fees onto directed channels is visible in the fees.
+	dbBias bool
 }
 
 func (c *c19) pf(format string, a ...interface{}) {
@@ -257,6 +303,10 @@ func (c *c19) genPol(amt uint64) *c19Pol {
 			p.ib = math.MinInt32
 		}
 	}
+	if c.dbBias && c.chance(0.6) {
+		p.ib = int32(c.pick(1, 500, 5000))
+		p.ir = int32(c.pick(0, 2000, 50000))
+	}
 	return p
 }
 
@@ -275,7 +325,7 @@ func (c *c19) genCase() *c19Case {
 	if c.chance(0.01) {
 		cs.amt = 0
 	}
-	c.loose = c.chance(0.6)
+	c.loose = c.chance(0.6) || c.dbBias
 	cs.src = r.Intn(cs.n)
 	cs.self = cs.src
 	if c.chance(0.06) {
@@ -320,6 +370,9 @@ func (c *c19) genCase() *c19Case {
 		perm := r.Perm(cs.n)
 		var mids []int
 		want := r.Intn(5)
+		if c.dbBias {
+			want = 1 + r.Intn(3)
+		}
 		for _, v := range perm {
 			if len(mids) < want && v != cs.src && v != cs.tgt {
 				mids = append(mids, v)
@@ -345,7 +398,7 @@ func (c *c19) genCase() *c19Case {
 		}
 		direct := (a == cs.src && b == cs.tgt) ||
 			(a == cs.tgt && b == cs.src)
-		if direct && c.chance(0.7) {
+		if direct && (c.dbBias || c.chance(0.7)) {
 			k++
 			continue
 		}
@@ -368,9 +421,71 @@ func (c *c19) genCase() *c19Case {
 	cs.height = uint32(c.pick(0, 1, 100, 800000, 800000, 1<<31-5000))
 	cs.finalDelta = uint16(c.pick(3, 9, 18, 40, 40, 144, 0, 1))
 	cs.defaultCfg = c.chance(0.5)
-	if c.chance(0.3) {
+	switch {
+	case c.chance(0.3):
 		cs.probSalt = 1 + r.Intn(50)
+	case c.chance(0.6):
+		cs.probSalt = -1
 	}
+	switch {
+	case c.chance(0.15):
+		// every channel that does not touch our own node becomes a pair
+		// of route hints.
+		var out []c19Chan
+		next := uint64(len(cs.chans) + 1)
+		for _, ch := range cs.chans {
+			if ch.a == cs.self || ch.b == cs.self {
+				out = append(out, ch)
+				continue
+			}
+			if ch.p1 != nil {
+				out = append(out, c19Chan{id: ch.id, a: ch.a, b: ch.b,
+					p1: ch.p1, hint: true})
+			}
+			if ch.p2 != nil {
+				out = append(out, c19Chan{id: next, a: ch.b, b: ch.a,
+					p1: ch.p2, hint: true})
+				next++
+			}
+		}
+		if len(out) > 0 {
+			cs.chans = out
+			for i := range cs.chans {
+				if cs.chans[i].hint {
+					cs.chans[i].p1.ib, cs.chans[i].p1.ir = 0, 0
+				}
+			}
+		}
+	case c.chance(0.15):
+		// one or two route hints into the target.
+		for k := 0; k < 1+r.Intn(2); k++ {
+			x := r.Intn(cs.n)
+			if x == cs.self || x == cs.tgt || cs.tgt >= cs.n {
+				continue
+			}
+			p := c.genPol(cs.amt)
+			p.ib, p.ir = 0, 0
+			cs.chans = append(cs.chans, c19Chan{
+				id: uint64(len(cs.chans) + 1), a: x, b: cs.tgt, p1: p,
+				hint: true,
+			})
+		}
+	case c.chance(0.15):
+		cs.metaLen = int(c.pick(1100, 1150, 1200))
+	}
+	// ids must stay unique.
+	{
+		seen := map[uint64]bool{}
+		next := uint64(len(cs.chans) + 100)
+		for i := range cs.chans {
+			if seen[cs.chans[i].id] {
+				cs.chans[i].id = next
+				next++
+			}
+			seen[cs.chans[i].id] = true
+		}
+	}
+	cs.order = r.Perm(len(cs.chans))
 	if c.chance(0.01) {
 		// malformed: a target that is not in the graph.
 		cs.tgt = cs.n
@@ -526,7 +641,8 @@ func (c *c19) run(cs *c19Case, g Graph, sess GraphSessionFactory,
 	}
 	c.pf("CASE %d kind=%s via=%s n=%d self=%d src=%d tgt=%d amt=%d "+
 		"feeLimit=%d cltvLimit=%d height=%d finalDelta=%d lastHop=%s "+
-		"outChans=%s ignNodes=%s ignPairs=%s prob=%d", c.n, cs.kind, cs.via, cs.n,
+		"outChans=%s ignNodes=%s ignPairs=%s prob=%d meta=%d", c.n, cs.kind, cs.via,
+		cs.n,
 		cs.self, cs.src, cs.tgt, cs.amt, cs.feeLimit, cs.cltvLimit,
 		cs.height, cs.finalDelta, lh,
 		c19List(cs.outChans, func(x uint64) string {
@@ -535,11 +651,57 @@ func (c *c19) run(cs *c19Case, g Graph, sess GraphSessionFactory,
 		c19List(cs.ignNodes, strconv.Itoa),
 		c19List(cs.ignPairs, func(p [2]int) string {
 			return fmt.Sprintf("%d>%d", p[0], p[1])
-		}), cs.probSalt)
+		}), cs.probSalt, cs.metaLen)
+	// graph channels in iteration order, then the route hints (the unifier
+	// sees graph policies first, hints in slice order per from node).
 	for _, k := range cs.order {
 		ch := cs.chans[k]
-		c.pf("chan %d %d %d cap=%d p1=%s p2=%s", ch.id, ch.a, ch.b,
+		if ch.hint {
+			continue
+		}
+		c.pf("chan %d %d %d cap=%d p1=%s p2=%s hint=0", ch.id, ch.a, ch.b,
 			ch.capSat, c19PolStr(ch.p1), c19PolStr(ch.p2))
+	}
+	var (
+		storedLog []c19Stored
+		relaxLog  []c19Relax
+		addEdges  = map[route.Vertex][]AdditionalEdge{}
+		hintFrom  = map[int]bool{}
+		graphFrom = map[int]bool{}
+	)
+	for _, ch := range cs.chans {
+		if !ch.hint {
+			graphFrom[ch.a], graphFrom[ch.b] = true, true
+			continue
+		}
+		if ch.p1 == nil {
+			continue
+		}
+		c.pf("chan %d %d %d cap=%d p1=%s p2=- hint=1", ch.id, ch.a, ch.b,
+			int64(fakeHopHintCapacity), c19PolStr(ch.p1))
+		to := keys[ch.b]
+		pol := &models.CachedEdgePolicy{
+			ChannelID:                 ch.id,
+			HasMaxHTLC:                ch.p1.max != 0,
+			IsDisabled:                ch.p1.dis,
+			TimeLockDelta:             ch.p1.delta,
+			MinHTLC:                   lnwire.MilliSatoshi(ch.p1.min),
+			MaxHTLC:                   lnwire.MilliSatoshi(ch.p1.max),
+			FeeBaseMSat:               lnwire.MilliSatoshi(ch.p1.base),
+			FeeProportionalMillionths: lnwire.MilliSatoshi(ch.p1.rate),
+			ToNodePubKey: func() route.Vertex {
+				return to
+			},
+			ToNodeFeatures: lnwire.EmptyFeatureVector(),
+		}
+		hintFrom[ch.a] = true
+		addEdges[keys[ch.a]] = append(addEdges[keys[ch.a]], &c19HintEdge{
+			PrivateEdge: PrivateEdge{policy: pol},
+			from:        ch.a, to: ch.b, chanID: ch.id, log: &storedLog,
+		})
+	}
+	if len(addEdges) == 0 {
+		addEdges = nil
 	}
 	var bwIDs []uint64
 	for id := range cs.bw {
@@ -564,9 +726,14 @@ func (c *c19) run(cs *c19Case, g Graph, sess GraphSessionFactory,
 	}
 	// The probability source of routerrpc's QueryRoutes without mission
 	// control: ignored nodes / pairs get probability zero, all else one.
-	prob := func(from, to route.Vertex, _ lnwire.MilliSatoshi,
+	logOn := true
+	prob := func(from, to route.Vertex, amt lnwire.MilliSatoshi,
 		_ btcutil.Amount) float64 {
 
+		if logOn {
+			relaxLog = append(relaxLog, c19Relax{idx[from], idx[to],
+				uint64(amt)})
+		}
 		if _, ok := ignN[from]; ok {
 			return 0
 		}
@@ -579,7 +746,18 @@ func (c *c19) run(cs *c19Case, g Graph, sess GraphSessionFactory,
 
 			return table[k%len(table)]
 		}
+		if cs.probSalt < 0 {
+			// distinct per ordered pair and within 2^-14 of 1: the
+			// product along a chain identifies the chain.
+			k := 1 + idx[from]*8 + idx[to]
+
+			return 1 - float64(k)/float64(1<<20)
+		}
 		return 1
+	}
+	var metadata []byte
+	if cs.metaLen > 0 {
+		metadata = make([]byte, cs.metaLen)
 	}
 	cfg := PathFindingConfig{}
 	if cs.defaultCfg {
@@ -615,9 +793,11 @@ func (c *c19) run(cs *c19Case, g Graph, sess GraphSessionFactory,
 				OutgoingChannelIDs: cs.outChans,
 				LastHop:            lastHop,
 				CltvLimit:          cs.cltvLimit,
+				Metadata:           metadata,
 			}
 			res.path, res.prob, ferr = findPath(
-				&graphParams{graph: g, bandwidthHints: hints}, r,
+				&graphParams{graph: g, bandwidthHints: hints,
+					additionalEdges: addEdges}, r,
 				&cfg, keys[cs.self], keys[cs.src], keys[cs.tgt],
 				lnwire.MilliSatoshi(cs.amt), 0,
 				int32(cs.height)+int32(cs.finalDelta),
@@ -630,12 +810,77 @@ func (c *c19) run(cs *c19Case, g Graph, sess GraphSessionFactory,
 					amt:       lnwire.MilliSatoshi(cs.amt),
 					totalAmt:  lnwire.MilliSatoshi(cs.amt),
 					cltvDelta: cs.finalDelta,
+					metadata:  metadata,
 				}, nil,
 			)
 
+		case "route":
+			// ChannelRouter.FindRoute with a real bandwidth manager
+			// over mock links.
+			rtr := &ChannelRouter{cfg: &Config{
+				RoutingGraph: g,
+				SelfNode:     keys[cs.self],
+				GetLink: func(id lnwire.ShortChannelID) (
+					htlcswitch.ChannelLink, error) {
+
+					bw, ok := cs.bw[id.ToUint64()]
+					if !ok || bw == 0 {
+						return nil, errors.New("no link")
+					}
+
+					return &mockLink{
+						bandwidth: lnwire.MilliSatoshi(bw),
+					}, nil
+				},
+				Chain:             newMockChain(cs.height),
+				PathFindingConfig: cfg,
+			}}
+			r := &RestrictParams{
+				ProbabilitySource:  prob,
+				FeeLimit:           lnwire.MilliSatoshi(cs.feeLimit),
+				OutgoingChannelIDs: cs.outChans,
+				LastHop:            lastHop,
+				CltvLimit:          cs.cltvLimit,
+				Metadata:           metadata,
+			}
+			res.rt, res.prob, ferr = rtr.FindRoute(&RouteRequest{
+				Source:       keys[cs.src],
+				Target:       keys[cs.tgt],
+				Amount:       lnwire.MilliSatoshi(cs.amt),
+				Restrictions: r,
+				RouteHints:   addEdges,
+				FinalExpiry:  cs.finalDelta,
+			})
+			if ferr != nil {
+				return
+			}
+			// FindRoute does not expose the unified edges; obtain
+			// them from a second search and keep them only if it
+			// chose the same channels.
+			relax1, stored1 := relaxLog, storedLog
+			logOn = false
+			p2, _, err2 := findPath(
+				&graphParams{graph: g, bandwidthHints: hints,
+					additionalEdges: addEdges}, r,
+				&cfg, keys[cs.self], keys[cs.src], keys[cs.tgt],
+				lnwire.MilliSatoshi(cs.amt), 0,
+				int32(cs.height)+int32(cs.finalDelta),
+			)
+			logOn = true
+			relaxLog, storedLog = relax1, stored1
+			same := err2 == nil && len(p2) == len(res.rt.Hops)
+			for i := 0; same && i < len(p2); i++ {
+				same = p2[i].policy.ChannelID ==
+					res.rt.Hops[i].ChannelID
+			}
+			if same {
+				res.path = p2
+			}
+
 		case "sess":
 			ps := &paymentSession{
-				selfNode: keys[cs.self],
+				selfNode:        keys[cs.self],
+				additionalEdges: addEdges,
 				getBandwidthHints: func(Graph) (bandwidthHints,
 					error) {
 
@@ -649,6 +894,7 @@ func (c *c19) run(cs *c19Case, g Graph, sess GraphSessionFactory,
 					FinalCLTVDelta:     cs.finalDelta - BlockPadding,
 					OutgoingChannelIDs: cs.outChans,
 					LastHop:            lastHop,
+					Metadata:           metadata,
 				},
 				pathFinder: func(g *graphParams, r *RestrictParams,
 					cfg *PathFindingConfig, self, source,
@@ -656,6 +902,7 @@ func (c *c19) run(cs *c19Case, g Graph, sess GraphSessionFactory,
 					timePref float64, finalHtlcExpiry int32) (
 					[]*unifiedEdge, float64, error) {
 
+					relaxLog, storedLog = nil, nil
 					p, pr, err := findPath(g, r, cfg, self, source,
 						target, amt, timePref, finalHtlcExpiry)
 					res.path = p
@@ -687,29 +934,82 @@ func (c *c19) run(cs *c19Case, g Graph, sess GraphSessionFactory,
 		c.pf("find => %s", c19ErrClass(ferr))
 		res.rt = nil
 	default:
+		// The chain of (from, to) node pairs of the returned path.
+		var chainFrom, chainTo []route.Vertex
+		var chainChan []uint64
+		{
+			cur := keys[cs.src]
+			if res.rt != nil {
+				for _, h := range res.rt.Hops {
+					chainFrom = append(chainFrom, cur)
+					cur = route.Vertex(h.PubKeyBytes)
+					chainTo = append(chainTo, cur)
+					chainChan = append(chainChan, h.ChannelID)
+				}
+			} else {
+				for _, e := range res.path {
+					chainFrom = append(chainFrom, cur)
+					cur = e.policy.ToNodePubKey()
+					chainTo = append(chainTo, cur)
+					chainChan = append(chainChan, e.policy.ChannelID)
+				}
+			}
+		}
 		// The probability findPath reports is the one stored with the
 		// source's entry; recompute it along the returned chain in the
 		// search's own order (target backwards). A difference means the
 		// entries along the chain are not the ones the edges were relaxed
 		// with (finality discipline of the search).
+		logOn = false
 		want := 1.0
-		{
-			froms := make([]route.Vertex, len(res.path))
-			cur := keys[cs.src]
-			for i, e := range res.path {
-				froms[i] = cur
-				cur = e.policy.ToNodePubKey()
-			}
-			for i := len(res.path) - 1; i >= 0; i-- {
-				want *= prob(froms[i],
-					res.path[i].policy.ToNodePubKey(), 0, 0)
-			}
+		for i := len(chainFrom) - 1; i >= 0; i-- {
+			want *= prob(chainFrom[i], chainTo[i], 0, 0)
 		}
+		logOn = true
 		probOK := 0
 		if want == res.prob {
 			probOK = 1
 		}
-		c.pf("find => ok nedges=%d probok=%d", len(res.path), probOK)
+		// A node pair relaxed twice in one search means the head node was
+		// expanded twice.
+		relaxDup := 0
+		seen := map[[2]int]bool{}
+		for _, e := range relaxLog {
+			k := [2]int{e.from, e.to}
+			if seen[k] {
+				relaxDup = 1
+			}
+			seen[k] = true
+		}
+		c.pf("find => ok nedges=%d probok=%d relaxdup=%d", len(res.path),
+			probOK, relaxDup)
+		// What the search itself used when it relaxed each edge of the
+		// returned chain: the amount passed to the probability source (all
+		// edges) and, where every outgoing edge of the tail node is a route
+		// hint, the (amount, incoming CLTV) of the last entry stored for it.
+		for i := range chainFrom {
+			f, t := vi(chainFrom[i]), vi(chainTo[i])
+			cnt, amt := 0, uint64(0)
+			for _, e := range relaxLog {
+				if e.from == f && e.to == t {
+					cnt++
+					amt = e.amt
+				}
+			}
+			line := fmt.Sprintf("stored %d from=%d to=%d cnt=%d amt=%d", i,
+				f, t, cnt, amt)
+			if hintFrom[f] && !graphFrom[f] && f != cs.src {
+				for k := len(storedLog) - 1; k >= 0; k-- {
+					if storedLog[k].from == f {
+						line += fmt.Sprintf(" schan=%d samt=%d "+
+							"scltv=%d", storedLog[k].chanID,
+							storedLog[k].amt, storedLog[k].expiry)
+						break
+					}
+				}
+			}
+			c.pf("%s", line)
+		}
 		from := cs.src
 		for i, e := range res.path {
 			to := vi(e.policy.ToNodePubKey())
@@ -727,10 +1027,22 @@ func (c *c19) run(cs *c19Case, g Graph, sess GraphSessionFactory,
 			res.rt = nil
 		} else {
 			rt := res.rt
+			// Real onion payload size of the route against the sphinx
+			// limit.
+			var payload uint64
+			for i, h := range rt.Hops {
+				var next uint64
+				if i+1 < len(rt.Hops) {
+					next = rt.Hops[i+1].ChannelID
+				}
+				payload += h.PayloadSize(next)
+			}
 			c.pf("route => ok total_amt=%d total_tl=%d src=%d nhops=%d "+
-				"total_fees=%d recv=%d", uint64(rt.TotalAmount),
+				"total_fees=%d recv=%d payload=%d payload_max=%d "+
+				"hops_max=%d", uint64(rt.TotalAmount),
 				rt.TotalTimeLock, vi(rt.SourcePubKey), len(rt.Hops),
-				uint64(rt.TotalFees()), uint64(rt.ReceiverAmt()))
+				uint64(rt.TotalFees()), uint64(rt.ReceiverAmt()),
+				payload, sphinx.MaxRoutingPayloadSize, sphinx.NumMaxHops)
 			for i, h := range rt.Hops {
 				c.pf("hop %d chan=%d to=%d amt=%d tl=%d fee=%d", i,
 					h.ChannelID, vi(h.PubKeyBytes),
@@ -870,6 +1182,9 @@ func (c *c19) derive(cs *c19Case, rt *route.Route, chanMut bool) *c19Case {
 		if nh > 1 {
 			j := r.Intn(nh - 1)
 			ch := chanOf(d, j)
+			if ch.hint {
+				break
+			}
 			own := &ch.p2
 			if ch.a == tos[j] {
 				own = &ch.p1
@@ -890,17 +1205,29 @@ func (c *c19) derive(cs *c19Case, rt *route.Route, chanMut bool) *c19Case {
 		// add a parallel channel with another time lock / fee.
 		if ch := chanOf(d, i); ch != nil {
 			nc := *ch
-			nc.id = uint64(len(d.chans) + 1)
+			nc.id = 1
+			for _, x := range d.chans {
+				if x.id >= nc.id {
+					nc.id = x.id + 1
+				}
+			}
 			nc.p1, nc.p2 = c.genPol(cs.amt), c.genPol(cs.amt)
+			if nc.hint {
+				nc.p2 = nil
+				nc.p1.ib, nc.p1.ir = 0, 0
+			}
 			if c.chance(0.5) {
 				if p := polOf(cs, i); p != nil {
 					q := *p
 					q.delta += uint16(1 + r.Intn(50))
 					q.base = c19Sub(q.base, uint64(r.Intn(2)))
 					q.dis = c.chance(0.3)
+					if nc.hint {
+						q.ib, q.ir = 0, 0
+					}
 					if nc.a == froms[i] {
 						nc.p1 = &q
-					} else {
+					} else if !nc.hint {
 						nc.p2 = &q
 					}
 				}
@@ -925,6 +1252,31 @@ func (c *c19) derive(cs *c19Case, rt *route.Route, chanMut bool) *c19Case {
 	d.order = r.Perm(len(d.chans))
 
 	return d
+}
+
+// c19Corpus returns fixed cases that run first on every seed.
+func c19Corpus() []*c19Case {
+	line := func(amt uint64, fwd, back *c19Pol) *c19Case {
+		return &c19Case{kind: "mem", via: "find", n: 3, lastHop: -1,
+			self: 0, src: 0, tgt: 2, amt: amt,
+			feeLimit: math.MaxUint64, cltvLimit: math.MaxUint32,
+			height: 800000, finalDelta: 40, bw: map[uint64]uint64{},
+			order: []int{0, 1},
+			chans: []c19Chan{
+				{id: 1, a: 0, b: 1, capSat: 1 << 33,
+					p1: &c19Pol{delta: 40}, p2: back},
+				{id: 2, a: 1, b: 2, capSat: 1 << 33, p1: fwd},
+			}}
+	}
+	return []*c19Case{
+		// ComputeFee: amt*rate = 2^64 + 2^32 - 2 wraps in uint64; node 1
+		// is left 4294 msat instead of 18446744078004 msat.
+		line(4294967298, &c19Pol{rate: 1<<32 - 1, delta: 40}, nil),
+		// InboundFee.CalcFee: rate*int64(amt) = 9.3e18 wraps in int64 to
+		// a negative value; node 1 is left 0 msat instead of 9.3e12 msat.
+		line(930000000000, &c19Pol{delta: 40},
+			&c19Pol{delta: 40, ir: 10000000}),
+	}
 }
 
 func c19Alias(i int) string { return fmt.Sprintf("n%d", i) }
@@ -976,6 +1328,16 @@ func TestVerifC19(t *testing.T) {
 		memKeys[i] = createPubkey(byte(i + 1))
 	}
 
+	// ---- corpus: minimal instances of recorded findings ---------------------
+	for _, cs := range c19Corpus() {
+		g := &c19Graph{cs: cs, keys: memKeys[:cs.n],
+			idx: map[route.Vertex]int{}}
+		for i := 0; i < cs.n; i++ {
+			g.idx[memKeys[i]] = i
+		}
+		c.run(cs, g, g, memKeys[:cs.n+1])
+	}
+
 	// ---- in-memory graphs -------------------------------------------------
 	for k := 0; k < nMem; k++ {
 		cs := c.genCase()
@@ -990,12 +1352,26 @@ func TestVerifC19(t *testing.T) {
 			if cs.cltvLimit > math.MaxUint32-uint32(cs.finalDelta) {
 				cs.cltvLimit = math.MaxUint32 - uint32(cs.finalDelta)
 			}
+		} else if c.chance(0.3) {
+			cs.via = "route"
 		}
 		for depth := 0; depth < 5; depth++ {
 			g := &c19Graph{cs: cs, keys: memKeys[:cs.n],
 				idx: map[route.Vertex]int{}}
 			for i := 0; i < cs.n; i++ {
 				g.idx[memKeys[i]] = i
+			}
+			if cs.via == "route" {
+				// the bandwidth manager knows every own channel: no
+				// link means bandwidth zero.
+				for _, ch := range cs.chans {
+					if ch.hint || (ch.a != cs.self && ch.b != cs.self) {
+						continue
+					}
+					if _, ok := cs.bw[ch.id]; !ok {
+						cs.bw[ch.id] = c.pick(0, 1<<41, 1<<41)
+					}
+				}
 			}
 			res := c.run(cs, g, g, memKeys[:cs.n+1])
 			if res.rt == nil || !c.chance(0.85) {
@@ -1007,10 +1383,26 @@ func TestVerifC19(t *testing.T) {
 
 	// ---- graphs in the real graph DB (with and without graph cache) --------
 	for k := 0; k < nDB; k++ {
+		c.dbBias = k%4 != 0
 		cs := c.genCase()
+		c.dbBias = false
 		cs.self = cs.src
 		if cs.tgt >= cs.n {
 			cs.tgt = (cs.src + 1) % cs.n
+		}
+		{
+			var keep []c19Chan
+			for _, ch := range cs.chans {
+				if !ch.hint {
+					keep = append(keep, ch)
+				}
+			}
+			if len(keep) == 0 {
+				keep = append(keep, c19Chan{id: 1, a: cs.src,
+					b: (cs.src + 1) % cs.n, capSat: 1 << 33,
+					p1: c.genPol(cs.amt), p2: c.genPol(cs.amt)})
+			}
+			cs.chans = keep
 		}
 		useCache := k%2 == 0
 		cs.kind = "dbn"
